@@ -6,7 +6,7 @@ CONSTANT Deviations = {}
 CONSTANT Base = 4096
 CONSTANT Starts = {"0", "1", "2", "4", "5", "prev", "prev1"}
 CONSTANT Lens = {1, 2, 3}
-CONSTANT Sizes = {0, 4, 6}
+CONSTANT Sizes = {99999, 4, 6}
 INVARIANT Strict
 INVARIANT SameAsFunction
 INVARIANT MergePrefix
